@@ -22,6 +22,7 @@ type PropConfig struct {
 	Structural  []string `json:"structural"` // names of structural (frames back end) checks
 	RoundTrips  []vc.RoundTrip `json:"roundtrips"` // From(To(x)) == x lemmas over two real functions
 	Lemmas      []string `json:"lemmas"` // names of //@ lemma declarations in the contract files
+	GuardFuncs  []string `json:"guard_functions"` // functions of which only the guard clauses are decided (frames back end, no WP)
 	Assumptions []string `json:"assumptions"`
 	Unverified  []string `json:"unverified"`
 	Note        string   `json:"note"`
@@ -184,6 +185,19 @@ func cmdCheck(args []string) {
 	}
 	// structural (frames back end) obligations
 	sres := runStructural(eng, cfg.Structural)
+	// guard clauses written in the contracts of the functions under contract
+	for _, name := range cfg.Functions {
+		sres = append(sres, guardClauseResults(eng, strings.SplitN(name, "#", 2)[0])...)
+	}
+	for _, name := range cfg.GuardFuncs {
+		rs := guardClauseResults(eng, name)
+		if len(rs) == 0 {
+			unbound = append(unbound, name+": no guard clause found in the contract files")
+			continue
+		}
+		funcsUnder = append(funcsUnder, name+" (guard clauses only)")
+		sres = append(sres, rs...)
+	}
 	results := vc.DischargeAll(all, timeout, 14, agree)
 	// an obligation that ran out of time under load is retried alone with three
 	// times the budget before it is reported (a timeout is not a refutation)
